@@ -446,7 +446,7 @@ fn run_case(i: u64, rng: &mut Rng, rep: &mut Report, nsteps: usize, verbose: boo
 }
 
 pub fn histories(ctx: &Ctx) -> Report {
-    let n = ctx.n(2_000, 300_000);
+    let n = ctx.n(40_000, 50_000_000);
     par_cases(ctx, "histories", n, ctx.secs(30, 600), |i, rng, rep| {
         let nsteps = 3 + rng.usize(18);
         run_case(i, rng, rep, nsteps, false)
@@ -455,7 +455,7 @@ pub fn histories(ctx: &Ctx) -> Report {
 
 /// Long histories: sizes at successive quiescent points must stay zero (no growth).
 pub fn long_histories(ctx: &Ctx) -> Report {
-    let n = ctx.n(16, 400);
+    let n = ctx.n(160, 100_000);
     par_cases(ctx, "long_histories", n, ctx.secs(30, 600), |i, rng, rep| run_case(i, rng, rep, if ctx.tiny { 20 } else { 600 }, false))
 }
 
